@@ -69,3 +69,84 @@ Example pre_ex :
       {| n_text := [CChr 4; CSp; CChr 5]; n_number := 4; n_ind := 2 |};
       {| n_text := [CChr 6]; n_number := 5; n_ind := 0 |} ].
 Proof. reflexivity. Qed.
+
+(* ------------------------------------------------------------------------------------ *)
+(* The continuation join of get_numbered_lines:
+
+       text = raw_line
+       while i < len(raw_lines) - 1 and text[-1] == "\\" or text.endswith(" or"):
+           i += 1
+           if text[-1] == "\\": text = text[0:-1]
+           if text[-1] != " ":  text = text + " "
+           text = text + raw_lines[i].strip()
+       lines.append({"text": text, "number": i + 1, "indentation": ind, ...})
+
+   (`and` binds tighter than `or`).  The physical lines that are appended are NOT filtered
+   (a blank or comment line after a backslash is appended like any other).  Python's
+   IndexError - `raw_lines[i]` past the last line when the text ends in " or", `text[-1]`
+   on a text that was only a backslash - is the result None.
+   `go` walks the physical lines once; `pend` is the statement being continued. *)
+
+Fixpoint last_ch (l : list ch) : option ch :=
+  match l with
+  | [] => None
+  | [c] => Some c
+  | _ :: r => last_ch r
+  end.
+
+Definition ends_bsl (t : list ch) : bool :=
+  match last_ch t with Some (CChr c) => c =? 92 | _ => false end.            (* "\\" *)
+
+Definition ends_sp (t : list ch) : bool :=
+  match last_ch t with Some CSp => true | _ => false end.
+
+Definition ends_or (t : list ch) : bool :=                                     (* " or" *)
+  match rev t with
+  | CChr r :: CChr o :: CSp :: _ => (r =? 114) && (o =? 111)
+  | _ => false
+  end.
+
+Definition join_next (text l : list ch) : option (list ch) :=
+  let t1 := if ends_bsl text then removelast text else text in
+  match t1 with
+  | [] => None
+  | _ => Some ((if ends_sp t1 then t1 else t1 ++ [CSp]) ++ strip l)
+  end.
+
+Fixpoint go (i : N) (pend : option (list ch * N)) (ls : list (list ch)) : option (list nline) :=
+  match ls with
+  | [] => match pend with None => Some [] | Some _ => None end
+  | l :: r =>
+      let has_next := match r with [] => false | _ => true end in
+      let finish := fun (text : list ch) (ind : N) =>
+        if (ends_bsl text && has_next) || ends_or text
+        then go (i + 1) (Some (text, ind)) r
+        else option_map (cons {| n_text := text; n_number := i + 1; n_ind := ind |}) (go (i + 1) None r) in
+      match pend with
+      | Some (text, ind) =>
+          match join_next text l with
+          | None => None
+          | Some t => finish t ind
+          end
+      | None =>
+          match strip l with
+          | [] => go (i + 1) None r
+          | CHash :: _ => go (i + 1) None r
+          | s => finish s (lead_sp l)
+          end
+      end
+  end.
+
+Definition pre_c (ls : list (list ch)) : option (list nline) := go 0 None ls.
+
+(* sanity: "if $a and \", "   $b and \  ", "   $c", "  user x or", "  user y" *)
+Example pre_c_ex :
+  pre_c [[CChr 1; CSp; CChr 92]; [CSp; CSp; CChr 2; CSp; CChr 92; CSp; CSp]; [CSp; CChr 3];
+         [CSp; CSp; CChr 4; CSp; CChr 111; CChr 114]; [CSp; CSp; CChr 5]]
+  = Some [ {| n_text := [CChr 1; CSp; CChr 2; CSp; CChr 3]; n_number := 3; n_ind := 0 |};
+           {| n_text := [CChr 4; CSp; CChr 111; CChr 114; CSp; CChr 5]; n_number := 5; n_ind := 2 |} ].
+Proof. vm_compute. reflexivity. Qed.
+
+(* " or" on the last line: raw_lines[i] raises IndexError *)
+Example pre_c_trailing_or : pre_c [[CChr 4; CSp; CChr 111; CChr 114]] = None.
+Proof. reflexivity. Qed.
